@@ -403,9 +403,20 @@ func (t *tr) target(tg *Target) (*Def, error) {
 	en = t.bindReceiver(fd, en)
 
 	if fd.Type.Params != nil {
+		nth := map[string]int{} // per Go type: how many parameters of that type came before
+
 		for _, f := range fd.Type.Params.List {
-			canon := t.fam.Objects[Text(f.Type)]
+			byType := t.fam.Objects[Text(f.Type)]
 			for _, id := range f.Names {
+				// `<type>#<n>`: the n-th parameter of that type (two slices of one type, told apart by position, so that
+				// renaming a parameter does not matter)
+				nth[Text(f.Type)]++
+				canon := byType
+
+				if c, ok := t.fam.Objects[fmt.Sprintf("%s#%d", Text(f.Type), nth[Text(f.Type)])]; ok {
+					canon = c
+				}
+
 				if vp, ok := t.fam.ValueParams[Text(f.Type)]; ok && canon == "" {
 					ts, known := t.fam.GoTypes[Text(f.Type)]
 					if !known || !t.paramNames[vp] {
@@ -1362,6 +1373,28 @@ func (t *tr) expr(e ast.Expr, en *env) (*Node, error) {
 		return t.binary(x, en)
 	case *ast.CallExpr:
 		return t.call(x, en)
+	case *ast.IndexExpr:
+		// `obj[i]`: an element of a slice the table knows as an object is the uninterpreted function `<obj>[]` of the
+		// index (what an index outside the slice does is not modelled: a Go panic)
+		if c, ok := t.canon(x.X, en); ok {
+			for i := range t.fam.Funcs {
+				fa := &t.fam.Funcs[i]
+				if fa.Fun != Text(c)+"[]" || len(fa.Res) != 1 {
+					continue
+				}
+
+				ix, err := t.expr(x.Index, en)
+				if err != nil {
+					return nil, err
+				}
+
+				if ix.K != KInt {
+					return nil, t.pkg.errorf(x.Pos(), "`%s`: the index is not an integer", Text(x))
+				}
+
+				return &Node{Op: "ucall", Name: fa.Lean, Args: []*Node{ix}, K: fa.Res[0].K, U: fa.Res[0].U, T: fa.Res[0].T}, nil
+			}
+		}
 	case *ast.SelectorExpr:
 		if id, ok := x.X.(*ast.Ident); ok {
 			if _, local := en.m[id.Name]; !local && importPath(en.fr.file, id.Name) == "time" {
